@@ -1117,3 +1117,70 @@ func (lk *LK) entryLockStates(u *Unit) (mask int, joined bool) {
 	}
 	return
 }
+
+// reachSync returns the units that run synchronously when u runs: static
+// callees, invoked/bound literals, synchronous callbacks and deferred calls
+// (not goroutines, not escaping values), transitively.
+func (lk *LK) reachSync(u *Unit) []*Unit { return lk.reachSyncStop(u, nil) }
+
+func (lk *LK) reachSyncStop(u *Unit, stop func(*Unit) bool) []*Unit {
+	seen := map[*Unit]bool{}
+	var order []*Unit
+	var visit func(x *Unit)
+	visit = func(x *Unit) {
+		if seen[x] {
+			return
+		}
+		seen[x] = true
+		lk.prepare(x)
+		if stop != nil && stop(x) {
+			return
+		}
+		order = append(order, x)
+		for _, evs := range x.events {
+			for _, e := range evs {
+				if (e.Kind == evCall && !e.Async) || (e.Kind == evDefer && e.Op == lkNone) {
+					for _, t := range e.Targets {
+						visit(t)
+					}
+				}
+			}
+		}
+	}
+	visit(u)
+	return order
+}
+
+// effects: write accesses to the given locations reachable synchronously from u.
+func (lk *LK) effects(u *Unit, locs map[string]bool) []*accState { return lk.effectsStop(u, locs, nil) }
+
+func (lk *LK) effectsStop(u *Unit, locs map[string]bool, stop func(*Unit) bool) []*accState {
+	var out []*accState
+	for _, x := range lk.reachSyncStop(u, stop) {
+		for _, evs := range x.events {
+			for _, e := range evs {
+				if e.Kind == evAccess && e.Acc.Write && locs[e.Acc.Loc] {
+					out = append(out, &accState{Unit: x, Acc: e.Acc})
+				}
+			}
+		}
+	}
+	sort.Slice(out, func(i, j int) bool { return out[i].Acc.Pos < out[j].Acc.Pos })
+	return out
+}
+
+// reads: read accesses to the given locations reachable synchronously from u.
+func (lk *LK) reads(u *Unit, locs map[string]bool) []*accState {
+	var out []*accState
+	for _, x := range lk.reachSync(u) {
+		for _, evs := range x.events {
+			for _, e := range evs {
+				if e.Kind == evAccess && !e.Acc.Write && locs[e.Acc.Loc] {
+					out = append(out, &accState{Unit: x, Acc: e.Acc})
+				}
+			}
+		}
+	}
+	sort.Slice(out, func(i, j int) bool { return out[i].Acc.Pos < out[j].Acc.Pos })
+	return out
+}
